@@ -20,7 +20,7 @@ Schema ==
      DSec("m", {"MULTI"}, << DInt("x", "5"), DStrList("ml", <<"d">>),
                              DSec("n", {"MULTI"}, << DInt("y", "1"), DStr("ns", "deep") >>),
                              DStr("ms", "dflt"), DFloat("mf", "2.25"), DBool("mb", "true") >>),
-     DSec("t", {"MULTI","TITLE"}, << DInt("x", "5"), DStr("ts", "tdef") >>),
+     DSec("t", {"MULTI","TITLE"}, << DInt("x", "5"), DStr("ts", "tdef"), DStrList("tl", <<"u">>) >>),
      DSec("kv", {"KEYSTRVAL"}, <<>>),
      (* a single section: removed through the API and opened again by a later parse *)
      DSec("s1", {}, << DInt("q", "4"), DStr("qs", "sdef") >>) >>
@@ -34,8 +34,13 @@ Texts ==
    seti  |-> <<T("i"), TkP("="), T("3"), T("l"), TkP("+="), T("b")>>,
    (* an undeclared key outside the free-form section: must stay an error whatever happened before *)
    stray |-> <<T("m"), TkP("{"), T("zz"), TkP("="), T("1"), TkP("}")>>,
-   opens1 |-> <<T("s1"), TkP("{"), TkP("}")>>]
-TextNames == {"newm", "key", "seti", "stray", "opens1"}
+   opens1 |-> <<T("s1"), TkP("{"), TkP("}")>>,
+   (* three instances at once; a titled instance that is filled, and opened again under the same title *)
+   threem |-> <<T("m"), TkP("{"), T("x"), TkP("="), T("1"), TkP("}"), T("m"), TkP("{"), T("x"), TkP("="), T("2"), TkP("}"),
+                T("m"), TkP("{"), T("x"), TkP("="), T("3"), TkP("}")>>,
+   fillt  |-> <<T("t"), T("a"), TkP("{"), T("x"), TkP("="), T("1"), T("tl"), TkP("+="), T("v"), TkP("}")>>,
+   opent  |-> <<T("t"), T("a"), TkP("{"), TkP("}")>>]
+TextNames == {"newm", "key", "seti", "stray", "opens1", "threem", "fillt", "opent"}
 
 M1 == <<[oi |-> 3, ii |-> 1]>>
 M2 == <<[oi |-> 3, ii |-> 2]>>
@@ -46,8 +51,9 @@ Calls ==
    rmt     |-> Call("rmtsec", <<>>, "t", 0, "a", <<>>),
    sib1    |-> Call("setint", M1, "x", 0, "8", <<>>),
    sib2    |-> Call("addlist", M2, "ml", 0, "", <<"e">>),
-   rms1    |-> Call("rmnsec", <<>>, "s1", 0, "", <<>>)]
-CallNames == {"setint", "note", "addt", "rmt", "sib1", "sib2", "rms1"}
+   rms1    |-> Call("rmnsec", <<>>, "s1", 0, "", <<>>),
+   rmm0    |-> Call("rmnsec", <<>>, "m", 0, "", <<>>)]
+CallNames == {"setint", "note", "addt", "rmt", "sib1", "sib2", "rms1", "rmm0"}
 
 (* cfg_set_validate_func(cfg, path, cb): on "i" the context's own option; on "m|x" the
    context's own template for future instances of m *)
